@@ -1,5 +1,6 @@
 (* Properties/C19.v — util.format keeps literals, is positional; console sends one message per call. *)
 From GN Require Import Common.Base Gen.UtilFormat Model.Format Spec.FormatSpec Proofs.FormatProofs.
+From GN Require Import Gen.UtilFormat Model.ConsoleSrc.
 
 (* for every format string (any code points) and every argument list, the scanner as written computes
    Node's restricted format: String(arg), String(Number(arg)), JSON.stringify(arg) are the oracles a_str/a_num/a_json *)
@@ -40,3 +41,9 @@ Example C19_examples :
   format [37;115] [a; a] = [97;32;97] /\
   format [37;115;37;115] [a] = [97;37;115].
 Proof. vm_compute. repeat split. Qed.
+
+(* every function of console/module.go and util/module.go (what is created per runtime, what is looked up at call time) has
+   the text the model and the claims of this property were written against (regenerated from the source on every run) *)
+Theorem C19_console_util_source_tie : console_util_src = expected_console_util_src.
+Proof. vm_compute. reflexivity. Qed.
+Print Assumptions C19_console_util_source_tie.
